@@ -201,6 +201,8 @@ def run():
     quick = ck.tier == 'quick'
     texts = [t.replace('{p}', p) for t in TEMPLATES for p in PAYLOADS]
     texts += inputs.texts(ck.rng, 3000 if quick else 80000)
+    from . import docgen
+    texts += docgen.texts(ck, 600 if quick else 20000)
     for i in range(600 if quick else 20000):
         a, b = ck.rng.choice(TEMPLATES), ck.rng.choice(TEMPLATES)
         texts.append(a.replace('{p}', ck.rng.choice(PAYLOADS)) + '\n\n' + b.replace('{p}', inputs.mutate(ck.rng, ck.rng.choice(PAYLOADS))))
